@@ -176,7 +176,7 @@ func checkCase(c Case) (out evid.Outcome) {
 				out.NonTrivial = true
 				out.Classes = append(out.Classes, "constraint-failed-on-admitting-route")
 			}
-			if want.Found && want.Route.Headers != nil {
+			if want.Found && len(want.Route.Headers) > 0 {
 				out.Classes = append(out.Classes, "constrained-route-won")
 				d := rt.Deriv(c.Regs[want.Route.Index].R)
 				static := true
